@@ -151,6 +151,20 @@ def versions():
     # SET versions: a later addition with a LOWER tag than an earlier one (the generator sorts additions by tag)
     d.append("SetV1 ::= SET { a [0] INTEGER (0..7), ..., b [5] BOOLEAN OPTIONAL }")
     d.append("SetV2 ::= SET { a [0] INTEGER (0..7), ..., b [5] BOOLEAN OPTIONAL, c [2] INTEGER (0..255) OPTIONAL }")
+    # the FIRST addition is the long one: its open type length determinant (>= 64, >= 128 octets) follows
+    # the presence bitmap directly
+    badds = ["b1 OCTET STRING (SIZE(0..300)) OPTIONAL", "b2 INTEGER (0..255) OPTIONAL", "b3 SEQUENCE OF INTEGER (0..255) OPTIONAL",
+             "b4 BOOLEAN OPTIONAL", "b5 UTF8String OPTIONAL"]
+    for k in range(0, 6):
+        body = "r1 INTEGER (0..15), ..." + "".join(", " + a for a in badds[:k])
+        d.append(f"Big{k} ::= SEQUENCE {{ {body} }}")
+    # an addition that is itself an extensible SEQUENCE with versions
+    d.append("InnerV1 ::= SEQUENCE { x INTEGER (0..3), ... }")
+    d.append("InnerV2 ::= SEQUENCE { x INTEGER (0..3), ..., y BOOLEAN OPTIONAL }")
+    d.append("InnerV3 ::= SEQUENCE { x INTEGER (0..3), ..., y BOOLEAN OPTIONAL, w OCTET STRING (SIZE(0..200)) OPTIONAL }")
+    d.append("DeepV1 ::= SEQUENCE { a BOOLEAN, ..., i InnerV1 OPTIONAL }")
+    d.append("DeepV2 ::= SEQUENCE { a BOOLEAN, ..., i InnerV2 OPTIONAL, z INTEGER (0..255) OPTIONAL }")
+    d.append("DeepV3 ::= SEQUENCE { a BOOLEAN, ..., i InnerV3 OPTIONAL, z INTEGER (0..255) OPTIONAL, l SEQUENCE OF InnerV3 OPTIONAL }")
     d.append("WrapV1 ::= SEQUENCE { m MsgV1, tail INTEGER (0..255) }")
     d.append("WrapV2 ::= SEQUENCE { m MsgV2, tail INTEGER (0..255) }")
     d.append("WrapV3 ::= SEQUENCE { m MsgV3, tail INTEGER (0..255) }")
